@@ -3,6 +3,7 @@ SPEC = dict(
     lean_project="HvPush", props_module="HvPush.Props.C12", driver="hvdrv_push",
     harness="hv_push", bin="hv_push", mode="c12",
     cases={"quick": 1500, "thorough": 30000},
+    refuted=["HvPush.resolveNonblocking_sendAfterDone_refuted"],
     level="proof",
     design_ref="DESIGN.md §5 C12",
     technique="Lean 4 simulation proofs over interaction-tree models of every push combinator (all downstream answer patterns, all caller histories) + differential correspondence with the real dfir_pipes::push code under the real SendPush/SendSink drivers",
@@ -23,8 +24,11 @@ SPEC = dict(
                 "combinators under the real SendPush/SendSink and on the compiled model; the global downstream call trace of "
                 "every poll/call and the external state left behind are diffed; the contract and delivered-items oracle is "
                 "evaluated on the real trace against an independent iterator-level spec. Partial: ResolveFutures with a "
-                "subgraph_waker (non-blocking) is modelled and correspondence-checked but has no Sound theorem (it may emit a "
-                "late-resolving future after the downstream's finalize was started)."),
+                "subgraph_waker (non-blocking) is modelled and correspondence-checked; its contract clause 'no send after "
+                "finalize' is refuted on a concrete witness when poll_finalize is polled again after Done "
+                "(resolveNonblocking_sendAfterDone_refuted, known finding F124), so it has no Sound theorem and cannot sit under a "
+                "Fanout in pipeline_compose; F121-F123 (FilterMapAsync item loss, StatePush duplicate state, FoldKeyed/ReduceKeyed "
+                "re-flush) were found by the oracle and fixed in /repo."),
     level_note=("Trusted/modelled-not-verified: Pin, Context merging, Toggle and size_hint are erased; closures are fixed pure "
                 "functions in the correspondence and arbitrary pure functions in the theorems; HashMap iteration order is an "
                 "arbitrary function `order` (keyed sends compared as multisets); futures, streams and the futures queue are "
